@@ -1,6 +1,7 @@
 package checks
 
 import (
+	"crypto/x509"
 	"encoding/xml"
 	"fmt"
 	"net/http"
@@ -22,7 +23,7 @@ import (
 
 var c07Tokens = []string{"a", "<", ">", "&", "\"", "'", "\r", "\n", "\t", " ", "]]>", "<!--", "-->", "&amp;", "&#13;", "\u0085", " ", "é", "\U0001F600", "�", "<![CDATA[", " "}
 
-var c07Positions = []string{"NameID", "UserName", "UserEmail", "CommonName", "Surname", "GivenName", "ScopedAffiliation", "Group", "CustomValue", "CustomName", "CustomFriendlyName", "SessionIndex"}
+var c07Positions = []string{"NameID", "UserName", "UserEmail", "CommonName", "Surname", "GivenName", "ScopedAffiliation", "Group", "CustomValue", "CustomName", "CustomFriendlyName", "SessionIndex", "PrincipalName", "SubjectID"}
 
 func c07Session(pos map[int]string) *saml.Session {
 	get := func(i int, dflt string) string {
@@ -43,6 +44,8 @@ func c07Session(pos map[int]string) *saml.Session {
 	s.CustomAttributes = []saml.Attribute{{Name: get(9, "urn:custom:attr"), FriendlyName: get(10, "custom"), NameFormat: "urn:oasis:names:tc:SAML:2.0:attrname-format:uri",
 		Values: []saml.AttributeValue{{Type: "xs:string", Value: "first"}, {Type: "xs:string", Value: get(8, "second")}}}}
 	s.Index = get(11, "session-index-1")
+	s.EduPersonPrincipalName = get(12, "alice-principal@idm.example.com") // set next to a different UserEmail
+	s.SubjectID = get(13, "subject-0001@example.com")
 	return s
 }
 
@@ -233,8 +236,9 @@ func runC07(c *core.Ctx) {
 		}
 		return strings.Join(parts, "+")
 	}
-	run := func(t *core.T, cf c07Cfg, pos map[int]string, key string) {
-		w := world(cf)
+	var runWorld func(t *core.T, w *c07World, cf c07Cfg, pos map[int]string, key string)
+	run := func(t *core.T, cf c07Cfg, pos map[int]string, key string) { runWorld(t, world(cf), cf, pos, key) }
+	runWorld = func(t *core.T, w *c07World, cf c07Cfg, pos map[int]string, key string) {
 		if w.err != nil {
 			t.Fail("C07/metadata-exchange/"+w.err.Error()[:20], "%s: %v", cf, w.err)
 			return
@@ -404,6 +408,29 @@ func runC07(c *core.Ctx) {
 						}
 					}
 					t.Outcome("ok")
+				})
+			}
+		}
+	}
+
+	// an IdP that lists intermediate certificates: the SP trusts only the published leaf
+	c.Group("idp-intermediates")
+	for _, cf := range []c07Cfg{base, encCfg} {
+		for n := 1; n <= 2; n++ {
+			for pi, pr := range []map[int]string{{}, {0: "a&b<c>", 7: " "}} {
+				cf, n, pr, pi := cf, n, pr, pi
+				key := fmt.Sprintf("intermediates=%d/%s/probe=%d", n, cf, pi)
+				c.Case(key, func(t *core.T) {
+					t.NonTrivial()
+					w := newWorld(cf)
+					if w.err != nil {
+						t.Fail("C07/metadata-exchange/intermediates", "%v", w.err)
+						return
+					}
+					w.idp.Intermediates = []*x509.Certificate{samlgen.Key("idp2").Cert, samlgen.Key("idpenc").Cert}[:n]
+					worlds[cf.String()+fmt.Sprint("/intermediates=", n)] = w
+					cf2 := cf
+					runWorld(t, w, cf2, pr, key)
 				})
 			}
 		}
